@@ -57,6 +57,10 @@ func vWordOp(op int, a, b uint64) uint64 {
 
 // |A ∩ B| from descriptions, without bit vectors where possible
 func vCountAnd(da, db *vDesc) int {
+	return vsym.IteInt(vsym.Or(da.inactive, db.inactive), 0, vCountAnd0(da, db))
+}
+
+func vCountAnd0(da, db *vDesc) int {
 	if da.kind == vKArray {
 		n := 0
 		for _, e := range da.elems {
@@ -65,7 +69,7 @@ func vCountAnd(da, db *vDesc) int {
 		return n
 	}
 	if db.kind == vKArray {
-		return vCountAnd(db, da)
+		return vCountAnd0(db, da)
 	}
 	if da.kind == vKRun && db.kind == vKRun {
 		n := 0
@@ -384,7 +388,28 @@ func VerifC01BitmapBinop() {
 		vBUnchanged(a, snapA, "lhs-unchanged")
 	}
 	if r != nil {
-		vBitmapExact(r, spec, card, false)
+		chunk := func(key uint16) vSpec {
+			sa, sb := da.chunkSpec(key), db.chunkSpec(key)
+			return vSpec{
+				has: func(lo uint16) bool { return vBoolOp(op, sa.has(lo), sb.has(lo)) },
+				words: func() []uint64 {
+					wa, wb := sa.words(), sb.words()
+					for i := range wa {
+						wa[i] = vWordOp(op, wa[i], wb[i])
+					}
+					return wa
+				},
+				card: func() int {
+					wa, wb := sa.words(), sb.words()
+					n := 0
+					for i := range wa {
+						n += vPop64(vWordOp(op, wa[i], wb[i]))
+					}
+					return n
+				},
+			}
+		}
+		vBitmapExact(r, vBSpec{has: spec, card: card, chunk: chunk}, false)
 		vsym.Observe(uint64(len(r.highlowcontainer.keys)))
 	}
 	if form != 2 {
